@@ -105,6 +105,10 @@ var props = []PropSpec{
 		ID: "C05", Level: "other",
 		Explanation: "bounded symbolic execution of the real lexer over a window of unconstrained runes; the SMT solver decides every rune comparison, so each path stands for a class of inputs",
 		Harnesses: []HarnessSpec{
+			{Pkg: "homescript/parser", Func: "VerifHarness_ParseTokens", Quick: map[string]int{"L": 3}, Thor: map[string]int{"L": 5}, ThorPaths: 3000000, ThorSecs: 2400, Require: []string{"parsed"},
+				Opts: gosym.Options{MaxSteps: 300000, BoundIsViolation: true},
+				Overrides: map[string]string{"(*~/homescript/lexer.Lexer).NextToken": "~/homescript/parser.verifStubNextToken", "(~/homescript/lexer.TokenKind).String": "~/homescript/parser.verifStubKindString"},
+				What: "Parser.Parse over every sequence of <=L tokens whose kinds are solver variables (lexer replaced by a stub serving the kinds, optional lexer error at any position): no panic, terminates within the step bound"},
 			{Pkg: "homescript/lexer", Func: "VerifHarness_LexSmoke", Quick: map[string]int{"K": 3}, Thor: map[string]int{"K": 5}, Require: []string{"returned"},
 				What: "one NextToken call on any window of <=K valid runes: no panic, progress, cursor in range"},
 		},
